@@ -334,3 +334,52 @@ def git_head(path):
                               text=True).stdout.strip()
     except Exception:
         return '?'
+
+
+# ---------------------------------------------------------------------------------------------------
+# line coverage of the implementation files a property is anchored in (measured, per run)
+# ---------------------------------------------------------------------------------------------------
+def start_line_coverage():
+    if os.environ.get('VERIF_LINECOV', '1') == '0':
+        return None
+    try:
+        import coverage
+        cov = coverage.Coverage(data_file=None, include=[os.path.join(REPO, 'rxsci', '*')], config_file=False)
+        cov.start()
+        return cov
+    except Exception:
+        return None
+
+
+def anchor_files(pid):
+    try:
+        for l in open(os.path.join(VERIF, 'properties.jsonl')):
+            d = json.loads(l)
+            if d['id'] == pid:
+                return d['anchors']['files']
+    except Exception:
+        pass
+    return []
+
+
+def stop_line_coverage(cov, pid):
+    if cov is None:
+        return None
+    out = {}
+    try:
+        cov.stop()
+        for rel in anchor_files(pid):
+            fn = os.path.join(REPO, rel)
+            if not os.path.exists(fn):
+                continue
+            try:
+                _, executable, _, missing, missing_str = cov.analysis2(fn)
+            except Exception:
+                continue
+            n = len(executable)
+            out[rel] = {'executable_lines': n, 'executed': n - len(missing),
+                        'percent': round(100.0 * (n - len(missing)) / n, 1) if n else 100.0,
+                        'not_executed': missing_str}
+    except Exception as e:
+        return {'error': str(e)[:200]}
+    return out
